@@ -152,7 +152,8 @@ func (c *caseCtx) distinct(sig string) {
 
 func (c *caseCtx) violate(sig, msg string, detail interface{}) {
 	c.nviol++
-	if len(c.res.Violations) >= 20 {
+	c.res.Counters["viol:"+sig]++
+	if c.res.Counters["viol:"+sig] > 4 || len(c.res.Violations) >= 40 {
 		c.res.Counters["violations_dropped"]++
 		return
 	}
